@@ -521,6 +521,10 @@ impl VisitMut for Normalizer {
                 }
             }
             sort_arms(m);
+            // every arm ends with a comma (optional after a block body)
+            for a in m.arms.iter_mut() {
+                a.comma = Some(Default::default());
+            }
         }
     }
 }
